@@ -15,7 +15,7 @@ TEXT = ("TLC exhausts the bounded thread-level (or task-level) model of the pool
 
 CHECKS = {
     "C01": "managed", "C02": "managed", "C03": "managed", "C04": "managed", "C06": "managed", "C07": "managed",
-    "C08": "managed", "C09": "managed", "C10": "managed", "C11": "managed", "C13": "managed", "C05": "unmanaged", "C12": "unmanaged", "C14": "sync", "C15": "syncmgr", "C17": "redismgr", "C18": "cases", "C19": "cases",
+    "C08": "managed", "C09": "managed", "C10": "managed", "C11": "managed", "C13": "managed", "C05": "unmanaged", "C12": "unmanaged", "C14": "sync", "C15": "syncmgr", "C16": "pgmgr", "C17": "redismgr", "C18": "cases", "C19": "cases",
 }
 EXTRA = {}
 try:
